@@ -58,6 +58,9 @@ Programs ==
     keysjoin |-> <<PrintS(Filt("join", Filt("keys", M, <<>>), <<LS(<<44>>)>>))>>,
     keysfirst |-> <<PrintS(Filt("first", Filt("keys", M, <<>>), <<>>))>>,
     forkeys  |-> <<For1("k", Filt("keys", M, <<>>), <<PrintS(Var("k"))>>)>>,
+    \* replace with a hash of pairs whose replacements contain each other's search texts (whatever that gives, it gives it every time)
+    replacehash |-> <<PrintS(Filt("replace", LS(<<97, 32, 98, 32, 99>>), <<Hash(<<LS(kA), LS(kB), LS(kC)>>, <<LS(kB), LS(kC), LS(kA)>>)>>)), T(<<124>>),
+                      PrintS(Filt("replace", LS(<<97, 98, 99, 97>>), <<M>>))>>,
     merged   |-> <<For("v", "k", Filt("merge", M, <<Hash(<<LS(<<122>>)>>, <<LI(9)>>)>>), KV, <<>>, FALSE)>>,
     lastset  |-> <<Set("z", LI(0)), For("v", "k", M, <<Set("z", Var("k"))>>, <<>>, FALSE), PrintS(Var("z"))>>,
     loopidx  |-> <<For("v", "k", M, <<If1(Attr(Var("loop"), "first"), <<PrintS(Var("k"))>>), If1(Attr(Var("loop"), "last"), <<PrintS(Var("k"))>>)>>, <<>>, FALSE)>>,
